@@ -27,7 +27,11 @@ MANIFEST = {
             'list.sort is modelled by a specification sort (runtime._sort belongs to C29); methods delegated to list (public '
             'int/slice, append, extend, +, *, copy, reverse) are list operations by construction. secfxp contents are modelled '
             'scaled by 2^f and secfld(p) as the image mod p of the integer model (ring homomorphism; checked by the '
-            'correspondence, not proved). "Only the length is public" (shape_only / call trace) is NOT proved: missing. '
+            'correspondence, not proved). "Only the length is public" is NOT proved in Coq (shape_only over a call-trace monad: '
+            'missing); it is only TESTED on the implementation: twin histories with equal public shape but different secret '
+            'values/positions must issue identical sequences of _reshare/output/random_bits/_random(s)/trunc calls with identical '
+            'sizes (remove/index excluded: they make presence public by design, like Python\'s ValueError; secure-number '
+            'indices on secfld excluded: to_bits uses rejection sampling with public coins). '
             'Single-party runs only (m=1). secfxp lists use non-integral elements only (mixed integrality is finding F-C03 of '
             'another property). Out-of-range secret indices are excluded (valid_key); public out-of-range ints are checked to '
             'raise IndexError. Extended slices, GF(2^8) and sort are checked against the Python list only.',
@@ -608,7 +612,8 @@ def shrink(ti, init, aops, seclist, secindex, budget=150):
             f = fails(init[:-1], aops)
             if f is not None:
                 init, cur, changed = init[:-1], f, True
-    return init, aops, cur[0], cur[1]
+    aops = aops[:cur[1] + 1]
+    return init, aops, cur[0][:cur[1] + 1], cur[1]
 
 
 def gen_history(rng, ti, maxops, maxinit=8):
@@ -638,6 +643,93 @@ def nontrivial(cops):
                for c in cops)
 
 
+
+# ------------------------------------------------------------------------------------------
+# "only the length is public", implementation level: two histories with the same public shape
+# (lengths, operation kinds, public arguments) but different secret values/positions must issue
+# the same sequence of communication-level runtime calls (_reshare / output / random_bits / _random(s))
+# with the same sizes
+
+class CallTrace:
+    NAMES = ('_reshare', 'output', 'random_bits', '_random', '_randoms', 'trunc')
+
+    def __init__(self, mpc):
+        self.mpc = mpc
+        self.on = False
+        self.log = []
+        self.orig = {}
+        for nm in self.NAMES:
+            if hasattr(mpc, nm):
+                self.orig[nm] = getattr(mpc, nm)
+                setattr(mpc, nm, self._wrap(nm, self.orig[nm]))
+
+    def _wrap(self, nm, f):
+        def g(*a, **k):
+            if self.on:
+                if nm in ('random_bits', '_randoms'):
+                    size = a[1]
+                elif nm == '_random':
+                    size = 1
+                else:
+                    x = a[0]
+                    size = len(x) if isinstance(x, (list, tuple)) else 0
+                self.log.append((nm, size))
+            return f(*a, **k)
+        return g
+
+    def restore(self):
+        for nm, f in self.orig.items():
+            try:
+                delattr(self.mpc, nm)
+            except AttributeError:
+                setattr(self.mpc, nm, f)
+
+
+def twin(rng, ti, init, cops):
+    """same public shape, fresh secret content"""
+    val = lambda: rng.choice(ti.pool)     # noqa: E731
+    init2 = [val() for _ in init]
+    out = []
+    for c in cops:
+        d = dict(c)
+        if 'v' in d:
+            d['v'] = val()
+        if 'ys' in d:
+            d['ys'] = [val() for _ in d['ys']]
+        if 'key' in d:
+            k = d['key']
+            if k[0] == 'num':
+                d['key'] = ['num', None]      # position filled in by traced_run (needs the current length)
+            elif k[0] == 'vec':
+                d['key'] = ['vec', unit(rng.randrange(len(k[1])), len(k[1]))]
+            elif k[0] == 'sec':
+                d['key'] = ['sec', k[1], unit(rng.randrange(len(k[2])), len(k[2]))]
+            else:
+                d['key'] = ['add', k[1], unit(rng.randrange(len(k[2])), len(k[2])), k[3], unit(rng.randrange(len(k[4])), len(k[4]))]
+        out.append(d)
+    return init2, out
+
+
+def traced_run(ti, tr, init, cops, seclist, secindex, rng):
+    """run a history recording, per operation, the communication-call trace and the public outcome
+    (exception class / public length); 'num' keys with position None get a random in-range position"""
+    s = seclist([ti.to_impl(v) for v in init], ti.T)
+    res = []
+    for c in cops:
+        if 'key' in c and c['key'][0] == 'num' and c['key'][1] is None:
+            N = len(s) + 1 if c['op'] == 'ins' else len(s)
+            c['key'] = ['num', rng.randrange(N)]
+        tr.log = []
+        tr.on = True
+        try:
+            s, out = impl_step(ti, s, c, seclist, secindex)    # (the harness' own opening of results is logged too: constant per op)
+        finally:
+            tr.on = False
+        pub = out[1] if out and out[0] == 'Err' else None
+        res.append((list(tr.log), len(s), pub))
+    return res
+
+
 # ------------------------------------------------------------------------------------------
 
 def run(ctx):
@@ -660,7 +752,7 @@ def run(ctx):
                        'on the model (run step) and on the abstract interpreter of the theorems (run pystep); all four traces must agree')
 
     types = [TI(mpc, 'int'), TI(mpc, 'fxp'), TI(mpc, 'fld', 101), TI(mpc, 'fld', 11), TI(mpc, 'fld', 2**61 - 1)]
-    per_type = ctx.n(90, 700)
+    per_type = ctx.n(60, 700)
     maxops = 12
     exprs, meta = [], []
     nviol = 0
@@ -695,7 +787,7 @@ def run(ctx):
     ctx.log('%d histories on the implementation vs Python list: %d mismatching' % (len(types) * per_type, nviol))
 
     # ---- non-unit index vectors: implementation vs model only (the property does not define them)
-    nraw = ctx.n(120, 600)
+    nraw = ctx.n(80, 600)
     for h in range(nraw):
         ti = types[h % 3] if h % 5 else types[3]
         n = rng.randrange(1, 6)
@@ -728,7 +820,7 @@ def run(ctx):
         meta.append(('raw', ti, key, tr, None))
 
     # ---- malformed index lengths: IndexError, state unchanged
-    nmal = ctx.n(60, 300)
+    nmal = ctx.n(40, 300)
     for h in range(nmal):
         ti = types[h % 3]
         n = rng.randrange(0, 5)
@@ -804,6 +896,38 @@ def run(ctx):
 
     # ---- Python-list-only streams: extended slices, binary field, lists as long as a small field
     extra_checks(ctx, mpc, seclist, secindex, types)
+
+    # ---- only the length is public (implementation level): twin histories, identical call traces
+    tr = CallTrace(mpc)
+    nshape, ntw = ctx.n(60, 400), 0
+    try:
+        for h in range(nshape):
+            ti = types[h % 3]
+            init, aops, cops = gen_history(rng, ti, 8)
+            # remove/index make the PRESENCE of the value public by design (ValueError, like Python)
+            # secfld secure-number indices go through to_bits on a prime field, whose rejection sampling makes
+            # the trace depend on the (public) random coins: not comparable between two runs
+            cut = [i for i, c in enumerate(cops) if c['op'] in ('remove', 'index') or
+                   (ti.kind == 'fld' and 'key' in c and c['key'][0] in ('num', 'add'))]
+            if cut:
+                cops = cops[:cut[0]]
+            if not cops:
+                continue
+            init2, cops2 = twin(rng, ti, init, cops)
+            a = traced_run(ti, tr, init, [dict(c) for c in cops], seclist, secindex, rng)
+            b = traced_run(ti, tr, init2, cops2, seclist, secindex, rng)
+            ntw += 1
+            ctx.case({'type': ti.name, 'shape_twin': [coq_op(c) for c in cops], 'init': init, 'init2': init2},
+                     nontrivial=nontrivial(cops), kind='shape twin')
+            if a != b:
+                d = next(i for i, (x, y) in enumerate(zip(a, b)) if x != y)
+                ctx.violation('shape-leak %s op=%s' % (ti.name, cops[d]['op']),
+                              {'type': ti.name, 'init': init, 'history': cops, 'twin_init': init2, 'twin_history': cops2,
+                               'step': d, 'trace': a[d], 'twin_trace': b[d]})
+    finally:
+        tr.restore()
+    ctx.extra['shape_twin_histories'] = ntw
+    ctx.extra['public_typed_results_on_empty_lists'] = sum(t.public_results for t in types)
 
     if ctx.broken and not ctx.violations:
         ctx.unproved('C31 model/proof', {'broken': ctx.broken[:5]})
